@@ -154,6 +154,88 @@ func stressBareServer(nConn int) error {
 	}
 }
 
+// stressClients: `n` independent kmip.Client values used from `n` goroutines at once against one TLS-serving Server (started
+// through ListenAndServe): Connect, DiscoverVersions, Send, Close, twice each. How the Clients got their *tls.Config is the
+// caller's business, and all the usual ways are covered: "own" = a config per Client, each prepared by
+// DefaultClientTLSConfig; "shared-prepared" = ONE config prepared once and handed to every Client (a tls.Config is made for that:
+// crypto/tls reads it concurrently and never writes to it); "shared-plain" = one config the caller filled in by hand (RootCAs,
+// ServerName, certificate; MinVersion left at its zero value) handed to every Client. Independent Clients share nothing the
+// library may write to.
+func stressClients(flavour string, n int) error {
+	ca := tlsm.NewCA("c12-clients-ca")
+	scfg := &tls.Config{Certificates: []tls.Certificate{tlsm.Leaf(ca, tlsm.LeafOpts{Host: "127.0.0.1"})}, ClientCAs: ca.Pool}
+	kmip.DefaultServerTLSConfig(scfg)
+	s := &kmip.Server{Addr: freeAddr(), TLSConfig: scfg, ReadTimeout: 5 * time.Second, WriteTimeout: 5 * time.Second}
+	s.Handle(kmip.OPERATION_GET, func(ctx *kmip.RequestContext, item *kmip.RequestBatchItem) (interface{}, error) {
+		rq, _ := item.RequestPayload.(kmip.GetRequest)
+		return kmip.GetResponse{ObjectType: kmip.OBJECT_TYPE_SYMMETRIC_KEY, UniqueIdentifier: rq.UniqueIdentifier}, nil
+	})
+	init := make(chan struct{})
+	ret := make(chan error, 1)
+	go func() { ret <- s.ListenAndServe(init) }()
+	<-init
+	mk := func() *tls.Config {
+		return &tls.Config{RootCAs: ca.Pool, ServerName: "127.0.0.1", Certificates: []tls.Certificate{tlsm.Leaf(ca, tlsm.LeafOpts{Host: "client", Client: true})}}
+	}
+	var shared *tls.Config
+	switch flavour {
+	case "shared-prepared":
+		shared = mk()
+		kmip.DefaultClientTLSConfig(shared)
+	case "shared-plain":
+		shared = mk()
+	}
+	start := make(chan struct{})
+	var wg sync.WaitGroup
+	errs := make(chan error, n)
+	for i := 0; i < n; i++ {
+		cfg := shared
+		if cfg == nil {
+			cfg = mk()
+			kmip.DefaultClientTLSConfig(cfg)
+		}
+		wg.Add(1)
+		go func(i int, cfg *tls.Config) {
+			defer wg.Done()
+			<-start
+			for k := 0; k < 2; k++ {
+				cl := &kmip.Client{Endpoint: s.Addr, TLSConfig: cfg, ReadTimeout: 5 * time.Second, WriteTimeout: 5 * time.Second}
+				if err := cl.Connect(); err != nil {
+					errs <- fmt.Errorf("client %d: Connect: %v", i, err)
+					return
+				}
+				if vs, err := cl.DiscoverVersions(nil); err != nil || len(vs) == 0 {
+					errs <- fmt.Errorf("client %d: DiscoverVersions: %v %v", i, vs, err)
+					cl.Close()
+					return
+				}
+				id := fmt.Sprintf("key-%d-%d", i, k)
+				resp, err := cl.Send(kmip.OPERATION_GET, kmip.GetRequest{UniqueIdentifier: id})
+				if g, ok := resp.(kmip.GetResponse); err != nil || !ok || g.UniqueIdentifier != id {
+					errs <- fmt.Errorf("client %d: Send returned %+v, %v (wanted the answer to %s)", i, resp, err, id)
+					cl.Close()
+					return
+				}
+				cl.Close()
+			}
+		}(i, cfg)
+	}
+	close(start)
+	wg.Wait()
+	ctx, cancel := context.WithTimeout(context.Background(), 5*time.Second)
+	defer cancel()
+	if err := s.Shutdown(ctx); err != nil {
+		return err
+	}
+	<-ret
+	select {
+	case e := <-errs:
+		return e
+	default:
+		return nil
+	}
+}
+
 // stressHandshakeShutdown: a TLS-serving Server with one established session and `pending` accepted connections whose
 // peers have not started their TLS handshake yet; Shutdown is issued, the established session ends, and only then the pending
 // peers handshake, send one request and leave. Everything the Server does to track a session (its WaitGroup, its done channel)
@@ -366,7 +448,7 @@ func runC12(r *Result, d *drv.Driver, tier string, seed int64, replay string) {
 	if tier == "thorough" {
 		rounds, nConn, nReq, codecN = 40, 24, 60, 2000
 	}
-	r.Rule = fmt.Sprintf("the real library under Go's race detector (kvrun built with -race=%v): %d rounds of %d concurrent sessions x %d two-item requests (auth callbacks, a panicking handler, the built-in Discover Versions) with Shutdown issued at a random moment; the same number of rounds of 8 connections sending their first requests simultaneously to a zero-value Server (no Handle, no callbacks); the same number of rounds of a TLS-serving Server shut down while one session is established and 1..3 accepted connections have not begun their handshake; 8x that number of rounds of Shutdown issued while a burst of 8 connections is being accepted; "+
+	r.Rule = fmt.Sprintf("the real library under Go's race detector (kvrun built with -race=%v): %d rounds of %d concurrent sessions x %d two-item requests (auth callbacks, a panicking handler, the built-in Discover Versions) with Shutdown issued at a random moment; the same number of rounds of 8 connections sending their first requests simultaneously to a zero-value Server (no Handle, no callbacks); the same number of rounds of a TLS-serving Server shut down while one session is established and 1..3 accepted connections have not begun their handshake; 8x that number of rounds of Shutdown issued while a burst of 8 connections is being accepted; the same number of rounds of 8 independent Clients in parallel against a TLS Server (Connect, DiscoverVersions, Send, Close; each with its own tls.Config, or all handed one config prepared by DefaultClientTLSConfig, or one config the caller filled in by hand); "+
 		"16 goroutines encoding/decoding overlapping types through independent Encoders/Decoders; the C11 schedule replays and a batch of C07 session scripts, all in one process. Every detector report is a finding. distinct = one per workload round", raceEnabled, rounds, nConn, nReq)
 	rng := rand.New(rand.NewSource(seed))
 	total := 0
@@ -398,6 +480,15 @@ func runC12(r *Result, d *drv.Driver, tier string, seed int64, replay string) {
 		if err := stressAcceptBurstShutdown(rng, 8); err != nil {
 			r.find(Finding{Kind: "violation", What: "server did not shut down cleanly while a burst of connections was being accepted", Input: fmt.Sprintf("round %d", i), Actual: err.Error()})
 		}
+	}
+	for i := 0; i < rounds; i++ {
+		flavour := []string{"own", "shared-prepared", "shared-plain"}[i%3]
+		r.eval(fmt.Sprintf("parallel-clients-round-%d-%s", i, flavour), true)
+		crumb(fmt.Sprintf("C12 parallel clients round %d: 8 Clients, tls.Config %s", i, flavour))
+		if err := stressClients(flavour, 8); err != nil {
+			r.find(Finding{Kind: "violation", What: "independent Clients used from parallel goroutines did not each get their own answers", Input: fmt.Sprintf("round %d: 8 Clients in parallel (Connect, DiscoverVersions, Send, Close, twice), tls.Config: %s", i, flavour), Actual: err.Error()})
+		}
+		r.Stats["parallel-client-rounds:"+flavour]++
 	}
 	stressCodec(seed, 16, codecN)
 	r.eval("codec-parallel", true)
